@@ -18,9 +18,9 @@ pub fn prop() -> Prop {
         ],
         subs: vec![
             Sub::tape("primitives", 40, 240_000, 12_000_000, |d, cx| run(d, cx, 0)).with_fp(),
-            Sub::tape("primitives_large", 40, 2_000, 100_000, |d, cx| run(d, cx, 4)),
+            Sub::tape("primitives_large", 40, 4_000, 200_000, |d, cx| run(d, cx, 4)),
             Sub::tape("polylines", 40, 50_000, 2_500_000, |d, cx| run(d, cx, 1)),
-            Sub::tape("primitives_display_scale", 40, 3_000, 150_000, display_scale).with_fp(),
+            Sub::tape("primitives_display_scale", 40, 6_000, 300_000, display_scale).with_fp(),
             Sub::tape("thick_polylines_triangles", 24, 300_000, 15_000_000, thick_joins),
             Sub::tape("images", 120, 30_000, 1_500_000, |d, cx| run(d, cx, 2)),
             Sub::tape("text_random", 300, 100_000, 5_000_000, |d, cx| run(d, cx, 3)),
@@ -58,6 +58,7 @@ fn tape_case<C: ImgCol>(d: &mut Dec, cx: &mut Cx, kind: u32) -> Res {
     } else {
         (gen_item::<C>(d, kind, dom), kind)
     };
+    let item = item.placed(crate::gen::far_offset(d));
     cx.describe(|| item.desc());
     cx.class(KIND_NAMES[kind as usize]);
     let n = check_item(&item)?;
@@ -112,6 +113,7 @@ fn fonts_matrix(ex: &Ex) {
                         alignment,
                         baseline,
                         line_height: LineHeight::Percent(100),
+                        route: 0,
                     });
                     count += 1;
                     match check_item(&item) {
